@@ -42,10 +42,14 @@ type ClusterCase struct {
 	// Reconcile: rounds run back to back on every node while the restore runs (false: only once the restoring node waits for them,
 	// every 30 ms - closer to the production timer)
 	Busy bool `json:"busy"`
+	// Quiet: no reconcile round runs between the moment a restore returns and the moment every node has been judged (production: the
+	// rounds are 30 s apart, so a restore is normally followed by a long stretch without one; seeded change C07-K: a node answers table
+	// lookups from a cache that only its own next round refreshes)
+	Quiet bool `json:"quiet,omitempty"`
 }
 
 func genClusterCase(t *rapid.T) ClusterCase {
-	c := ClusterCase{Pre: genKVs(t, "p", 0, 5, false), Busy: rapid.Bool().Draw(t, "busy")}
+	c := ClusterCase{Pre: genKVs(t, "p", 0, 5, false), Busy: rapid.Bool().Draw(t, "busy"), Quiet: rapid.Bool().Draw(t, "quiet")}
 	declared := 0
 	for i, n := 0, rapid.IntRange(1, 3).Draw(t, "restores"); i < n; i++ {
 		declared += rapid.IntRange(1, 50).Draw(t, "declare")
@@ -122,13 +126,17 @@ func runClusterCase(c ClusterCase, o *vt.Obs) *vt.Failure {
 		return out, nil
 	}
 	// reconcile rounds on every node
-	var stop atomic.Bool
+	var stop, paused atomic.Bool
 	var wg sync.WaitGroup
 	for _, f := range ccFx {
 		wg.Add(1)
 		go func(f *enginefx.Fixture) {
 			defer wg.Done()
 			for !stop.Load() {
+				if paused.Load() {
+					time.Sleep(2 * time.Millisecond)
+					continue
+				}
 				_ = f.E.Manager.VerifReconcile()
 				if !c.Busy {
 					time.Sleep(30 * time.Millisecond)
@@ -162,6 +170,7 @@ func runClusterCase(c ClusterCase, o *vt.Obs) *vt.Failure {
 			reader = &breakAfter{r: sf, n: r.Break}
 		}
 		rerr := ccFx[r.Node%3].E.Restore(name, reader)
+		paused.Store(c.Quiet)
 		_ = sf.Close()
 		if r.Break > 0 {
 			if rerr == nil {
@@ -231,6 +240,7 @@ func runClusterCase(c ClusterCase, o *vt.Obs) *vt.Failure {
 			}
 			maxID = ids[0]
 		}
+		paused.Store(false)
 		// the table still takes writes, seen everywhere
 		k, v := []byte(fmt.Sprintf("after-%d", ri)), []byte("w")
 		if err := put((r.Node+1)%3, k, v); err != nil {
@@ -257,6 +267,9 @@ func runClusterCase(c ClusterCase, o *vt.Obs) *vt.Failure {
 	}
 	if broken > 0 {
 		o.Label("cluster-restore-stream-broke")
+	}
+	if c.Quiet {
+		o.Label("cluster-no-reconcile-round-between-restore-and-judgement")
 	}
 	if c.Busy {
 		o.Label("cluster-reconcile-rounds-back-to-back")
